@@ -363,17 +363,17 @@ theorem world_bankruptcy_spec {c : Ctx} {available : Int} {o : BkrOut} (h : Worl
     admin, or anyone if the bank opted into permissionless settlement — whatever else the transaction contains -/
 theorem world_tx_every_settlement_is_of_real_bad_debt {w w' : WState} {tx : List TOp} (h : w.runTx tx = some w')
     {i ai bi signer : Nat} {available : Int} (hi : tx[i]? = some (.ix (.bankruptcy ai bi signer available))) :
-    ∃ (wi : WState) (a : AcctV) (b : WBank) (o : BkrOut), wi.accts[ai]? = some a ∧ wi.banks[bi]? = some b ∧
+    ∃ (wi : WState) (a : AcctV) (b : WBank) (o : BkrOut), w.before tx i = some wi ∧ wi.accts[ai]? = some a ∧ wi.banks[bi]? = some b ∧
       World.bankruptcy (wi.ctx a b signer b.v.liquidityVault 0) available = .ok o ∧
       hasFlag a.flags ACCOUNT_IN_RECEIVERSHIP = false ∧ hasFlag a.flags ACCOUNT_IN_FLASHLOAN = false ∧
       Bank.bankruptcyAuthorized (hasFlag b.v.books.flags PERMISSIONLESS_BAD_DEBT_SETTLEMENT_FLAG) signer wi.g.admin wi.g.riskAdmin = true ∧
       ∃ ps eq, portfolio (wi.ctx a b signer b.v.liquidityVault 0) a.slots b.v.books = .ok ps ∧ Risk.checkBankrupt ps = .ok eq ∧
         eq.1 < eq.2 ∧ eq.1 < BANKRUPT_THRESHOLD := by
-  obtain ⟨wi, a, b, o, ha, hb, ho⟩ := tx_bankruptcy_ran h hi
+  obtain ⟨wi, a, b, o, hbef, ha, hb, ho⟩ := tx_bankruptcy_ran h hi
   obtain ⟨_, _, _, _, hr, hf, hauth, _, ⟨ps, eq, hps, hbk⟩, _⟩ := world_bankruptcy_spec ho
   obtain ⟨e1, e2⟩ := eq
   obtain ⟨h1, h2, _, _⟩ := bankrupt_only_if hbk
-  exact ⟨wi, a, b, o, ha, hb, ho, hr, hf, hauth, ps, (e1, e2), hps, hbk, h1, h2⟩
+  exact ⟨wi, a, b, o, hbef, ha, hb, ho, hr, hf, hauth, ps, (e1, e2), hps, hbk, h1, h2⟩
 
 /-- … in particular a bank that is paused or was killed by an earlier bankruptcy settles nothing -/
 theorem world_bankruptcy_needs_live_bank (c : Ctx) (available : Int)
